@@ -171,11 +171,11 @@ def iterative_rejection_inmem(
         all_marg_lls = np.concatenate((all_marg_lls, marg_lls))
 
         if np.any(~np.isfinite(all_marg_lls)):
-            return RuntimeError(
+            raise RuntimeError(
                 "There are NaN or Inf likelihood values in " f"iteration step {i}!"
             )
         elif len(all_marg_lls) == 0:
-            return RuntimeError(
+            raise RuntimeError(
                 "No likelihood values returned in iteration " f"step {i}"
             )
 
